@@ -82,6 +82,11 @@ def part_encodings(ctx):
     heavy[3:, 3] = 1
     heavy[3:, 2] += r0.randint(0, 2, size=20)
     sc.append(dict(matrix=heavy.tolist(), kws=kws, seed=ctx.seed, y=None, enc="heavy rows"))
+    # every column distributed like the row masses (rank one): all raw weights are 0 - the learned weights must not become 0/0
+    sc.append(dict(matrix=[[1, 2], [2, 4], [3, 6]], kws=kws + [dict()], seed=ctx.seed, y=None, enc="rank one"))
+    sc.append(dict(matrix=[[0, 0, 0, 0], [0, 3, 2, 0], [0, 3, 2, 0]], kws=kws + [dict(approx_prior=False)], seed=ctx.seed, y=None,
+                   enc="rank one with an empty row and empty columns"))
+    sc.append(dict(matrix=[[0, 3, 2, 0], [0, 3, 2, 0], [0, 6, 4, 0]], kws=kws, seed=ctx.seed, y=[0, 1, 0], enc="rank one, supervised"))
     for k in range(ctx.pick(12, 60)):
         rk = np.random.RandomState(k)
         A = rk.randint(0, 6, size=(4, 2)).astype(float)
